@@ -407,6 +407,8 @@ PLAN["C08"] = {
               "contains_address": ["kani:vk_contains_address_rule"]},
     "native": [{"stem": "module_reader", "filter": "c14_well", "tiers": Q, "tests": {
         "c14_well_formed_image_is_identified": H("B'", "BuildId/SoName::read_from_module", "3 hand-built ELF64 images")}},
+               {"stem": "maps_reader", "filter": "bprime_aggregate_up_to_2", "tiers": Q, "tests": {
+        "bprime_aggregate_up_to_2_lines": H("B'", "MappingInfo::aggregate (module naming: the mapped path without the ' (deleted)' marker; extents)", "every map of <= 2 lines over the 64-element per-line domain x vDSO choices (12 416 maps)")}},
                {"stem": "maps_reader", "filter": "bprime_effective", "tiers": Q, "tests": {
         "bprime_effective_module_name": H("B'", "MappingInfo::get_mapping_effective_path_name_and_version", "8 paths x 4 SONAMEs x executable x offset (128)")}},
                {"stem": "mappings", "filter": "bprime_module", "tiers": Q, "tests": {
